@@ -90,11 +90,12 @@ def rewrite(t, f: Callable):
 
 
 def substitute(t, mapping: Dict):
-    def f(x):
-        return mapping.get(x)
+    """top-down, simultaneous: a replaced sub term is not visited again"""
+    if not isinstance(t, tuple) or not t:
+        return t
     if t in mapping:
         return mapping[t]
-    return rewrite(t, f)
+    return tuple(substitute(c, mapping) if isinstance(c, tuple) else c for c in t)
 
 
 # ---------------------------------------------------------------------------
